@@ -58,6 +58,12 @@ pub struct Qcow2Dev<T> {
     // of them have completed.
     refcount_wb_lock: AsyncMutex<()>,
 
+    // Held shared by every write_at() from its mapping lookup until its
+    // data is written. Whoever unmaps data clusters takes it exclusively
+    // once before the clusters are released, which waits for the writers
+    // that may still be using the old mapping.
+    data_io_gate: AsyncRwLock<()>,
+
     file: T,
     backing_file: Option<Box<Qcow2Dev<T>>>,
     pub info: Qcow2Info,
@@ -123,6 +129,7 @@ impl<T: Qcow2IoOps> Qcow2Dev<T> {
             need_flush: AtomicBool::new(false),
             flush_lock: AsyncMutex::new(()),
             refcount_wb_lock: AsyncMutex::new(()),
+            data_io_gate: AsyncRwLock::new(()),
         };
 
         Ok(dev)
